@@ -62,6 +62,9 @@ def rnd_bytes(r, n):
 def rnd_kwd(r):
     def cp():
         d = {}
+        if r.random() < 0.2:
+            # parameters that hold falsy values ONLY: False and 0 are values, not absences
+            return r.choice([{"random_iv": False}, {"iv_length": 0, "initial_counter_value": 0}, {"random_iv": False, "tag_length": 0}])
         if r.random() < 0.8:
             d["block_cipher_mode"] = r.choice(list(enums.BlockCipherMode))
         if r.random() < 0.5:
